@@ -233,6 +233,12 @@ def parse_fault(stderr, rc, timed_out=False):
     return {"kind": kind, "frame": frame, "detail": detail}
 
 
+# freed blocks are handed out again at once (no ASan quarantine): state keyed on the ADDRESS of a freed table
+# (stale caches surviving lou_free) only misbehaves when the address is reused
+ASAN_REUSE = {"ASAN_OPTIONS": "detect_leaks=0:abort_on_error=0:exitcode=99:allocator_may_return_null=1:"
+                              "quarantine_size_mb=0:thread_local_quarantine_size_kb=0"}
+
+
 def run_harness(exe, lines, cwd, timeout=120, env=None, leak=False):
     e = dict(os.environ)
     e["ASAN_OPTIONS"] = "detect_leaks=%d:abort_on_error=0:exitcode=99:allocator_may_return_null=1" % (1 if leak else 0)
